@@ -92,6 +92,10 @@ def run(ctx):
         # 1. empty history -> true, decided first
         key = "%s:%s:empty-history-accepted" % (rule, f.id)
         e0 = [e for e in g.edges if e.cond[0] == "rel" and e.cond[1] == "Eq" and Len(prev)(e.cond[2]) and Lit(0)(e.cond[3])]
+        if not e0:
+            # the same decision spelled on the element: `match prev.last() { None => return true, Some(last) => .. }`
+            e0 = [e for e in g.edges if e.cond[0] == "variant" and e.cond[2] == "None" and e.cond[3] and
+                  (Call("last", prev)(e.cond[1]) or Call("split_last", prev)(e.cond[1]) or Call("next_back", Mentions(prev))(e.cond[1]))]
         if len(e0) == 1 and set(rd.kind for rd in e0[0].leads) == {"true"} and \
                 all(f.body.dominates(e0[0].block, rd.block) for rd in g.retdefs):
             ctx.ok(rule, key, "prev.is_empty() -> true, and this test dominates every return", loc=f.loc)
@@ -133,7 +137,8 @@ def run(ctx):
                     lvl_e = lvl_e[1]
                 if set_e[0] == "phi":
                     set_e = g.eb.init_expr(set_e[1]) or set_e
-                set_ok = Call("from_iter", Field(last_of(prev), "prefixes"))(set_e) and not adapters_in(set_e)
+                set_ok = (Call("from_iter", Field(last_of(prev), "prefixes"))(set_e) or
+                          Call("collect", Field(last_of(prev), "prefixes"))(set_e)) and not adapters_in(set_e)
                 lvl_ok = Field(last_of(prev), "level")(lvl_e)
                 # a prefix that is not a member refuses; the test is made in every iteration; the loop is left only by that
                 # refusal or by exhausting the prefixes, and `true` is returned only after exhaustion
